@@ -392,7 +392,7 @@ func init() {
 	})
 
 	register(&Rule{
-		ID: "entry.exit-once", Props: []string{"C01"}, Floor: 2,
+		ID: "entry.exit-once", Props: []string{"C01", "C06"}, Floor: 2,
 		Doc: "in SentinelEntry.Exit everything that touches the context (calls receiving it, stores through it) or reaches slots / handlers / the pool lies inside the function literal passed to Do of the entry's sync.Once: a second or late Exit must not affect any context, which may already belong to another entry",
 		Run: func(c *Ctx) {
 			f := c.P.Func("core/base.(*SentinelEntry).Exit")
